@@ -97,8 +97,8 @@ def run(chk):
     corpus = [(c, ()) for c in chk.corpus()]
     sources = corpus + [(s, ()) for s in prog.repo_test_inputs()]
     for i in range(chk.scale(250, 3000)):
-        sources.append((gen_c.program(rng, placement=rng.choice(["zp", "mixed", "abs"]), shorts=rng.random() < 0.3,
-                                      inline_rate=0.6, gotos=True).text, ()))
+        sources.append((gen_c.program(rng, placement=rng.choice(["zp", "mixed", "abs"]), shorts=rng.random() < 0.55,
+                                      inline_rate=0.6, gotos=True, probe=('lte16', 'zero-compare', 'reg-compare')).text, ()))
     nfun = 0
     for (src, defs) in sources:
         for level in (0, 1):
